@@ -44,6 +44,17 @@ pub struct Script {
     pub rip_at_dispatch: u64,
     pub count_at_dispatch: u64,
     pub log_len_at_dispatch: u8,
+    // ---- contract-level hooks (step variant); index 0 = before phase, 1 = after phase
+    pub hooks_registered_for: Option<SupportedMnemonic>,
+    pub hook_phase_calls: [u8; 2],
+    pub rip_seen_by_hooks: [u64; 2],
+    pub dispatch_calls_seen_by_hooks: [u8; 2],
+    pub hook_writes_rax: [bool; 2],
+    pub hook_rax: [u64; 2],
+    pub hook_writes_rip: [bool; 2],
+    pub hook_rip: [u64; 2],
+    pub hook_stops: [bool; 2],
+    pub hook_fails: [bool; 2],
 }
 
 pub struct MachineState {
@@ -223,6 +234,16 @@ impl Axecutor {
         }
         self.heap.length = new_size;
         Ok(())
+    }
+}
+
+#[cfg(ax_l3_sys)]
+impl Axecutor {
+    pub fn verif_brk(&self) -> (u64, u64) {
+        self.state.syscalls.verif_brk()
+    }
+    pub fn verif_set_brk(&mut self, start: u64, length: u64) {
+        self.state.syscalls.verif_set_brk(start, length)
     }
 }
 
